@@ -90,6 +90,19 @@ objbits: 14
 timeout: 600
 */
 /*@unit
+name: rule_suffix_number
+define: U_SUFNUM
+src: strings.c
+funcs: spiftool_version_compare
+tier: B
+bound: prefix 2.10 and the same word from {pre,rc,a,pl} on both sides [thorough tier: prefixes 2 / 2.10, all seven words] followed by digits from {1,2,9}: the number behind the suffix is ordered numerically (concrete enumeration; added by the lead after seed C17-s2)
+unwind: 20
+backend: sat
+flags: --max-field-sensitivity-array-size 200
+objbits: 14
+timeout: 600
+*/
+/*@unit
 name: rule_longer
 define: U_LONGER
 src: strings.c
@@ -185,6 +198,24 @@ void harness(void)
                 render(a, n, ca, i, l ? 4 : 10); render(b, n, cb, 0, 10);
                 check(a, b, i <= 4 ? -1 : 1);   /* snap/pre/alpha/beta below the bare version, others above */
             }
+#endif
+#ifdef U_SUFNUM
+    {
+        static const unsigned dg[3] = { 1, 2, 9 };
+#ifdef VERIF_THOROUGH
+        for (n = 1; n <= 2; n++)
+            for (i = 1; i <= 7; i++)
+#else
+        for (n = 2; n <= 2; n++)
+            for (i = 2; i <= 7; i += (i == 2 ? 3 : 1))     /* pre, rc, a, pl */
+#endif
+                for (j = 0; j < 3; j++)
+                    for (k = 0; k < 3; k++) {
+                        ca[0] = cb[0] = vals[1]; ca[1] = cb[1] = vals[3];
+                        render(a, n, ca, i, dg[j]); render(b, n, cb, i, dg[k]);
+                        check(a, b, j < k ? -1 : (j > k ? 1 : 0));   /* "optional word suffix and number": the number is a numeric component */
+                    }
+    }
 #endif
 #ifdef U_LONGER
     for (n = 1; n <= 2; n++)
